@@ -137,7 +137,7 @@ def term_leaves(t, acc=None):
             for a in t[2]:
                 term_leaves(a, acc)
         else:
-            for a in t[1:]:
+            for a in (t[1:] if (t and isinstance(t[0], str)) else t):
                 term_leaves(a, acc)
     elif isinstance(t, list):
         for a in t:
